@@ -2,7 +2,7 @@
 from engine.driver import Cond, Run, source_fingerprint
 from checks.parsefam import *
 
-FRAG_SPECS = [("prefix", 3, 5), ("list", 2, 4), ("nested", 3, 4), ("rec", 3, 4), ("uni", 2, 3), ("open", 3, 4), ("nullstar", 2, 3)]
+FRAG_SPECS = [("prefix", 3, 5), ("list", 2, 3), ("nested", 3, 4), ("rec", 3, 4), ("uni", 2, 3), ("open", 3, 4), ("nullstar", 2, 3)]
 
 
 def run(tier):
@@ -13,6 +13,8 @@ def run(tier):
     for spec, q, t in FRAG_SPECS:
         n = q if tier == "quick" else t
         env = {"H_SPEC": spec, "H_LEN": str(n)}
+        if spec in REACH:
+            env["H_REACH"] = str(min(n, int(REACH[spec])))  # the spec has no longer words
         conds.append(Cond("h_parse_frag.py", "same_as_whole", to, twin="reach", path_timeout=to / 2, env=env))
         conds.append(Cond("h_parse_frag.py", "continue_sound", to, path_timeout=to / 2, env=env))
     for spec, alpha, ql, tl in RX_SPECS:
